@@ -137,12 +137,16 @@ const CRLF: &[u8] = b"\r\n";
 /// Replaces all CRLF with LF
 pub fn replace_crlf<'a>(bytes: &'a [u8]) -> Cow<'a, [u8]> {
     if let Some(index) = bytes.windows(2).position(|window| window == CRLF) {
-        [
-            Cow::from(&bytes[0..index]),
-            replace_crlf(&bytes[index + 1..]),
-        ]
-        .concat()
-        .into()
+        // one pass, no recursion: the input can be megabytes of output
+        let mut replaced = Vec::with_capacity(bytes.len());
+        replaced.extend_from_slice(&bytes[0..index]);
+        let mut rest = &bytes[index + 1..];
+        while let Some(index) = rest.windows(2).position(|window| window == CRLF) {
+            replaced.extend_from_slice(&rest[0..index]);
+            rest = &rest[index + 1..];
+        }
+        replaced.extend_from_slice(rest);
+        replaced.into()
     } else {
         bytes.into()
     }
